@@ -1,8 +1,8 @@
 \* C19 model configuration template; @@X@@ are substituted by harness/drivers/c19 (cfgJob there).
 \* Bounds used by the check (quick tier unless noted):
-\*   conc    ProcsC1 = {p1, p3} ProcsC2 = {p2}  1 name   1 call per process  1 lookup process  <=1 failing write
-\*   conc2   ProcsC1 = {p1}     ProcsC2 = {p2}  1-2 names  <=2 calls per process  1 lookup   <=1 failing write
-\*   cmd     the command-handler create path (pre-check + expiry update), 2 processes
+\*   conc3   ProcsC1 = {p1, p3} ProcsC2 = {p2}  1 name     1 call per process (thorough: 2)  1 lookup process
+\*   conc2   ProcsC1 = {p1}     ProcsC2 = {p2}  1-2 names  <=2 calls per process  <=1 failing write
+\*           (p2 creates through the command handler: pre-check + expiry update)
 \*   seq     sequential histories with Update / expiry, legacy mappings on this / another node
 CONSTANTS
   ProcsC1 = @@P1@@
@@ -15,7 +15,7 @@ CONSTANTS
   Pre = @@PRE@@
   Faults = @@FAULTS@@
   Guess = @@GUESS@@
-  ViaHandler = @@HANDLER@@
+  HandlerProcs = @@HANDLER@@
   Serial = @@SEQ@@
   MaxLegacy = @@MAXLEG@@
   Fix = @@FIX@@
